@@ -203,14 +203,7 @@ def _relation_cases(rng, tier):
             c["pixel_size"] = rng.choice([0.5, 0.25, rng.uniform(0.2, 0.6)])
             c["as_collection"] = (i // len(RELS)) % 2 == 1
             for key in ("A", "B"):
-                pts = []
-                for kk in range(rng.randint(2, 5)):
-                    b = rng.uniform(0.5, 3.0) + 0.25 * kk
-                    p = rng.uniform(0.2, 2.0) + 0.125 * kk
-                    if dyadic:
-                        b, p = round(b * 16) / 16, round(p * 16) / 16
-                    pts.append([b, b + p])
-                c[key] = pts
+                c[key] = _ft_points(rng, dyadic)
         if rel == "njobs" and c["weight"]["type"] == "persistence" and c["weight"]["n"] != int(c["weight"]["n"]):
             # the arrays are read with both skew flags; a real exponent is nan on a negative persistence
             c["weight"] = {"type": "persistence", "n": float(rng.choice([1, 2, 3]))}
@@ -321,12 +314,19 @@ def _distinct(rng, draw, prev):
 
 
 def _ft_points(rng, dyadic):
-    pts = []
+    """>= 2 points for fit / fit_transform; births pairwise distinct and persistences pairwise distinct (a diagram whose
+    births all coincide fits a zero-size image)."""
+    pts, bs, ps = [], [], []
     for kk in range(rng.randint(2, 5)):
         b = rng.uniform(0.5, 3.0) + 0.25 * kk
         p = rng.uniform(0.2, 2.0) + 0.125 * kk
         if dyadic:
             b, p = round(b * 16) / 16, round(p * 16) / 16
+        while any(abs(b - x) < 0.03125 for x in bs):
+            b += 0.0625
+        while any(abs(p - x) < 0.03125 for x in ps):
+            p += 0.0625
+        bs.append(b); ps.append(p)
         pts.append([b, b + p])
     return pts
 
